@@ -61,6 +61,24 @@ def family_key(name):
     return re.sub(r'\d+', '#', name)
 
 
+def r_signatures(ctx, rid='R13.5'):
+    """Frozen per-jet signatures (used by C13 and, as the definition of a well-typed jet call, by C04)."""
+    fx = ctx.facts()
+    ctx.rule(rid, 'per-jet signature (parameter list, result type) equals the reviewed table; width families cross-checked')
+    tabs, universe = jet_tables(ctx)
+    frozen = json.load(open(TABLE))['jets'] if os.path.exists(TABLE) else {}
+    src, tgt = tabs['jet::source_type'][0], tabs['jet::target_type'][0]
+    n_bad = 0
+    for j in sorted(set(src) | set(frozen)):
+        cur = {'params': src.get(j), 'result': tgt.get(j)}
+        if frozen.get(j) != cur:
+            n_bad += 1
+            if n_bad <= 12:
+                ctx.ob(rid, 'signature:' + j, False, 'signature of jet %s differs from the reviewed table' % j, fx.fn('jet::source_type').where(), 'now %s; reviewed %s' % (cur, frozen.get(j)))
+    ctx.ob(rid, 'signatures', n_bad == 0, '%d jet signatures equal the reviewed table' % len(src), None)
+    ctx.floor(rid, 'jet signatures', len(src), 400)
+
+
 def check(ctx):
     fx = ctx.facts()
     # jet signatures are written with the builtin alias names (Gej, Message64, ...): each has to be recognisable in source text
